@@ -1,7 +1,7 @@
 #!/bin/sh
 # usage: refeval.sh <agent id (R1|R2)> <n>  - applies a behaviour-preserving refactoring in a scratch worktree and runs
 # every check whose property anchors a touched file (plus a fixed set); any VIOLATION / non-zero exit is a false alarm.
-id=$1; n=$2
+id=$1; n=$2   # R1..R4
 wt=/tmp/rf/$id.$n
 patch=/tmp/seed/$id.out/$n.patch.diff
 [ -f $patch ] || { echo "$id.$n: no patch"; exit 0; }
